@@ -181,6 +181,26 @@ def run(rep, tier="quick", replay=None, evidence_dir=None):
                     # the edge region extends to the join: look only at the first construction on that edge
                     oke = "Full" in built
     rep.ob("C09.R4", "an enum reader with a default accepts every writer enum", oke, "", ib.loc())
+    # ... and it is the *reader's* default and symbol list that decide (the writer's symbols are the ones looked up)
+
+    def side(body, op):
+        r_ = body.resolve_operand(op) if op.get("k") in ("copy", "move") else None
+        if not r_:
+            return None
+        nm_ = body.local_name(r_[0]) or ""
+        if body.kind == "Closure" and r_[0] == 1:
+            nm_ = body.opdesc(op)
+        return "reader" if ("reader" in nm_ or nm_.startswith("r_")) else ("writer" if ("writer" in nm_ or nm_.startswith("w_")) else nm_)
+    sides = [side(ib, t["args"][0]) for bi, t in calls_named(ib, "std::option::Option::<T>::is_some") if "default" in ib.opdesc(t["args"][0]) and "Enum" in ib.opdesc(t["args"][0])]
+    rep.ob("C09.R4", "the enum default that makes every writer enum readable is the reader's", bool(sides) and all(x == "reader" for x in sides),
+           "the checker looks at the default of %s: a reader without a default is reported to read symbols it does not know (the read fails), a reader with one is reported incompatible" % sides, ib.loc())
+    cont = []
+    for bb in fam:
+        for bi, t in bb.calls():
+            if callee_names(t["func"])[0].endswith("::contains") and "String" in str(t["func"].get("ga")) and t["args"]:
+                cont.append((bb, bi, side(bb, t["args"][0]), side(bb, t["args"][1]) if len(t["args"]) > 1 else None))
+    okc = bool(cont) and all(c[2] == "reader" for c in cont)
+    rep.ob("C09.R4", "writer symbols are looked up in the reader's symbol list", okc, "contains() is called on %s" % [c[2] for c in cont], cont[0][0].loc(cont[0][1]) if cont else ib.loc())
     fm = [(bi, t) for bi, t in ib.calls() if callee_names(t["func"])[0] == "std::iter::Iterator::find_map"]
     okf = len(fm) == 1 and "Chain<std::iter::Once<&std::string::String>" in str(fm[0][1]["func"].get("ga"))
     inner_over_writer = False
@@ -191,6 +211,17 @@ def run(rep, tier="quick", replay=None, evidence_dir=None):
                 inner_over_writer = True
     rep.ob("C09.R4", "a reader field is matched by its name, then its aliases (outer search), against the writer's field names (inner search)", okf and inner_over_writer,
            "searching the writer's fields first gives priority by writer order: a reader alias equal to an earlier writer field hijacks the match", ib.loc(fm[0][0]) if fm else ib.loc())
+    # the reader (Value::resolve_record) matches fields the way the checker does: name first, then the reader's aliases
+    # (C08.R3 instances) - otherwise a pair the checker calls Full is read into the wrong field or not at all
+    import c08
+    sub8 = common.Report("C08", tier, 0)
+    c08.run(sub8, tier=tier, collect_only=True)
+    n48 = 0
+    for o in sub8.obligations:
+        if o["rule"] == "C08.R3":
+            n48 += 1
+            rep.ob("C09.R4", "[C08.R3] " + o["instance"], o["ok"], o["detail"], o["loc"])
+    rep.floor("C09.R4", "imported record-resolution obligations", n48, 7)
     # ------------------------------------------------------------ R5
     fms = prog.bodies.get(CK + "full_match_schemas")
     if fms is None:
